@@ -20,7 +20,7 @@
      "isDefined is right" = where pkglint's isDefined says the variable is
      defined, it is (e v <> None). *)
 From PV Require Import Lib.Bytes Gen.CondSimpSets Spec.BmakeCond Model.CondSimp
-  Proofs.CondSimpA Proofs.CondSimpB Proofs.CondSimpNum Proofs.CondSimpC Proofs.CondSimpD.
+  Proofs.CondSimpA Proofs.CondSimpB Proofs.CondSimpNum Proofs.CondSimpC Proofs.CondSimpWords Proofs.CondSimpD.
 Open Scope N_scope.
 
 (* ---- the regenerated literals are the ones the model was written against ---- *)
@@ -131,6 +131,28 @@ Theorem C14_match_equivalent : forall cx v mods fe neg rw e,
        equivalent e f t).
 Proof. exact match_rewrite_equivalent. Qed.
 Print Assumptions C14_match_equivalent.
+
+(* the same with the promise stated the way mayMatchNumber means it -- "no word
+   that matches the pattern is a number" -- for every value whose only white
+   space is blank, tab, newline: one matching word is then not a number, and
+   several words contain a blank, at which strtoul and strtod stop *)
+Theorem C14_match_equivalent_words : forall cx v mods fe neg rw e,
+  In rw (simplify_match cx v mods fe neg) ->
+  exists f t pat,
+    rw_from_c rw = Some f /\ rw_to_c rw = Some t /\ last mods [] = 77 :: pat /\
+    (e v <> None ->
+     forall d s, eval_expr e v (map classify_mod (removelast mods)) = Some (d, s) ->
+       clean s ->
+       (cx_mmn cx pat <> MmnYes ->
+        forall w, w <> [] -> wordlike w -> str_match w pat = true -> try_parse_number w = None) ->
+       equivalent e f t).
+Proof. exact match_rewrite_equivalent_words. Qed.
+Print Assumptions C14_match_equivalent_words.
+
+(* a value with a blank after its first word is never a number *)
+Theorem C14_blank_not_number : forall s, skip_cspace s = s -> In 32 s -> try_parse_number s = None.
+Proof. exact blank_not_number. Qed.
+Print Assumptions C14_blank_not_number.
 
 (* rewriting an operand keeps the value of the surrounding condition *)
 Theorem C14_context_not : forall e f t, preserves e f t -> preserves e (CNot f) (CNot t).
